@@ -49,6 +49,14 @@ PREDS = ['none-given', 'all', 'some', 'late', 'none-selected', 'some3']
 def row_func(row):
     row['cnt'] = row['cnt'] + 1
     row['v'] = row['v'] * 2
+    if isinstance(row.get('tags'), list):
+        row['tags'].append('seen')          # a nested value edited in place: exactly once per row, too
+
+
+def row_func_raising(row):
+    if row['id'] % 4 == 0:
+        raise ZeroDivisionError('row function fails for this row')     # (before it touches the row)
+    row_func(row)
 
 
 def make_pred(kind, late):
@@ -92,7 +100,10 @@ def cases_(draw):
             'two_resources': draw(st.booleans()), 'all_resources': draw(st.booleans()),
             # some rows carry their fields in another insertion order (an upstream step popped and re-added a key);
             # the first row carries a value bigger than a pipe buffer (64 KiB)
-            'key_order': draw(st.booleans()), 'blob': draw(st.integers(0, 7)) == 0}
+            'key_order': draw(st.booleans()), 'blob': draw(st.integers(0, 7)) == 0,
+            # rows carry a list value the row function appends to; the row function raises for every 4th row (such a row
+            # is still delivered, untouched); more workers than any plausible internal cap
+            'nested': draw(st.booleans()), 'raising': draw(st.integers(0, 3)) == 0, 'many_workers': draw(st.integers(0, 15)) == 0}
 
 
 def cases(tier):
@@ -202,6 +213,20 @@ def run_under_scheduler(case, s, classes=None):
     if case.get('key_order'):
         src_rows = [r if r['id'] % 3 else {'cnt': r['cnt'], 'v': r['v'], 'id': r['id']} for r in src_rows]
         classes.append('rows-with-different-key-order')
+    if case.get('raising'):
+        for e in exp:
+            if e['id'] % 4 == 0 and e['cnt'] == 1:
+                e.update(v=e['id'], cnt=0)
+        classes.append('row-function-raises-for-some-rows')
+    if case.get('nested'):
+        fields = fields + [{'name': 'tags', 'type': 'array'}]
+        for r, e in zip(src_rows, exp):
+            r['tags'] = ['t%d' % r['id']]
+            e['tags'] = ['t%d' % r['id']] + (['seen'] if e['cnt'] == 1 else [])
+        classes.append('nested-value-edited-in-place')
+    if case.get('many_workers'):
+        N = 65 + (n % 7)
+        classes.append('more-than-64-workers')
     if case.get('blob') and n:
         fields = fields + [{'name': 'blob', 'type': 'string'}]
         for r, e in zip(src_rows, exp):
@@ -219,7 +244,8 @@ def run_under_scheduler(case, s, classes=None):
     out = {}
 
     def consumer():
-        step = dataflows.parallelize((lambda row: None) if empty else row_func, num_processors=N,
+        step = dataflows.parallelize((lambda row: None) if empty else (row_func_raising if case.get('raising') else row_func),
+                                     num_processors=N,
                                      predicate=make_pred(pred, late),
                                      resources=None if case.get('all_resources') else 'res1')
         res, dp, _ = Flow(FeedStep(desc, tables), step).results(on_error=None)
@@ -258,7 +284,8 @@ def run_under_scheduler(case, s, classes=None):
             # the second resource goes through its own fork/collect cycle
             exp2 = []
             for r in tables[1]:
-                exp2.append({'id': r['id'], 'v': r['v'] * 2, 'cnt': 1} if (selected(pred, late, r['id']) and not empty) else dict(r))
+                applied = selected(pred, late, r['id']) and not empty and not (case.get('raising') and r['id'] % 4 == 0)
+                exp2.append({'id': r['id'], 'v': r['v'] * 2, 'cnt': 1} if applied else dict(r))
             if canon(out['rows'][1]) != canon(exp2):
                 raise Violation('rows:second-parallelized-resource', {'got': out['rows'][1][:5], 'expected': exp2[:5], 'N': N, 'pred': pred})
     return s
